@@ -444,7 +444,26 @@ struct World
     os.imbue(plain_locale);
     std::size_t acked = 0;
     std::vector<std::size_t> ends; // offset after the text of each completely written value
+    // `alloc:k`: the k-th allocation the library makes while it writes throws; a value whose
+    // output operator was hit either makes the stream fail / throws, or is on disk completely
+    bool const alloc_faults = op.gets("fault").compare(0, 6, "alloc:") == 0;
+    struct AllocScope
     {
+      bool on;
+      explicit AllocScope(bool o) : on(o)
+      {
+        if (on)
+          sim::fault::st().alloc_off = false;
+      }
+      ~AllocScope()
+      {
+        if (on)
+          sim::fault::st().alloc_off = true;
+      }
+    };
+    try
+    {
+      AllocScope const alloc_scope(alloc_faults);
       sim::fault::Sut s;
       for (Item const &it : items)
       {
@@ -459,15 +478,23 @@ struct World
         if (!os.good())
           break;
         // the value's text is completely on disk (the separator may still be refused)
-        ends.push_back(wb.data().size());
+        {
+          sim::fault::Harness h; // the harness's own bookkeeping is not a fault site
+          ends.push_back(wb.data().size());
+        }
         os << Ch(' ');
         if (!os.good())
           break;
         ++acked;
       }
     }
+    catch (std::bad_alloc const &)
+    {
+      SIM_CHECK(sim::fault::fired(sim::fault::alloc), "undocumented-exception", "bad_alloc from an output operator without an injected failure");
+      ctx.probe("text_output_reported_bad_alloc");
+    }
     string const file = wb.data();
-    if (accept < 0)
+    if (accept < 0 && !sim::fault::fired(sim::fault::alloc))
       SIM_CHECK(acked == items.size(), "write-failed-without-fault", "text");
     if (wb.write_refused())
       ctx.probe("torn_write");
@@ -883,6 +910,29 @@ struct World
         SIM_CHECK(sim::fault::fired(sim::fault::alloc), "undocumented-exception", "bad_alloc without an injected failure");
         ctx.probe("text_conversion_reported_bad_alloc");
       }
+      // the same for a composite value: a vector's text through output_to_std_(w)string
+      {
+        using vec3l = fcppt::math::vector::static_<long long, 3>;
+        long long const a = static_cast<long long>(r.next()), b = static_cast<long long>(r.next()), c3 = static_cast<long long>(r.below(100000));
+        std::string const want_v = "(" + std::to_string(a) + "," + std::to_string(b) + "," + std::to_string(c3) + ")";
+        try
+        {
+          std::string sv;
+          std::wstring wv;
+          {
+            sim::fault::Sut s;
+            sv = fcppt::output_to_std_string(vec3l(a, b, c3));
+            wv = fcppt::output_to_std_wstring(vec3l(a, b, c3));
+          }
+          SIM_CHECK(sv == want_v, sv.size() < want_v.size() && want_v.compare(0, sv.size(), sv) == 0 ? "silent-truncation" : "string-roundtrip", "output_to_std_string of the vector " + want_v + " returned '" + sv + "'" + (sim::fault::fired(sim::fault::alloc) ? " (an allocation failure was injected and not reported)" : ""));
+          SIM_CHECK(wv == std::wstring(want_v.begin(), want_v.end()), wv.size() < want_v.size() ? "silent-truncation" : "string-roundtrip", "output_to_std_wstring of the vector " + want_v + " returned " + std::to_string(wv.size()) + " characters" + (sim::fault::fired(sim::fault::alloc) ? " (an allocation failure was injected and not reported)" : ""));
+        }
+        catch (std::bad_alloc const &)
+        {
+          SIM_CHECK(sim::fault::fired(sim::fault::alloc), "undocumented-exception", "bad_alloc without an injected failure");
+          ctx.probe("text_conversion_reported_bad_alloc");
+        }
+      }
       sim::fault::Sut s;
       color const c = static_cast<color>(r.below(5));
       auto e = fcppt::enum_::from_string<color>(std::string{fcppt::enum_::to_string(c)});
@@ -936,12 +986,40 @@ struct World
 
 namespace prop
 {
+void execute(sim::Plan const &p, sim::Ctx &ctx);
 void warmup()
 {
   // fcppt::narrow / widen / from_std_wstring / to_std_wstring take std::locale(""): the property
   // speaks of a UTF-8 locale, so that is what the environment names while the harness runs
   ::setenv("LC_ALL", "C.UTF-8", 1);
   (void)sim::sim_locale();
+  // one fault-free pass over every kind of scenario: whatever the standard library initialises
+  // lazily (numeric formatting caches of the locales, facet tables) exists before the first run,
+  // so that a run's allocation sites do not depend on which runs the process executed before
+  sim::Plan p;
+  p.property = prop::id;
+  for (long w = 0; w < 2; ++w)
+  {
+    p.ops.push_back(sim::Op("text").set("vs", 7).set("n", 6).set("w", w).set("rchunk", 0));
+    p.ops.push_back(sim::Op("badname").set("vs", 7).set("w", w).set("v", 1).set("rchunk", 0));
+  }
+  p.ops.push_back(sim::Op("bin").set("vs", 7).set("n", 6).set("e", 2));
+  p.ops.push_back(sim::Op("chars").set("vs", 7).set("n", 9));
+  p.ops.push_back(sim::Op("cvt").set("vs", 7).set("n", 9));
+  p.ops.push_back(sim::Op("cvt").set("vs", 7).set("n", 9).set("real", 1));
+  p.ops.push_back(sim::Op("ionarrow").set("vs", 7).set("n", 5).set("classic", 0));
+  p.ops.push_back(sim::Op("ionarrow").set("vs", 7).set("n", 5).set("classic", 1));
+  p.ops.push_back(sim::Op("pure").set("vs", 7));
+  sim::detail::announce_warmup(p);
+  sim::Ctx ctx;
+  try
+  {
+    execute(p, ctx);
+  }
+  catch (...)
+  {
+  }
+  sim::fault::st().in_sut = false;
 }
 
 void generate(sim::Rng &rng, sim::Plan &p, bool)
@@ -999,6 +1077,8 @@ void generate(sim::Rng &rng, sim::Plan &p, bool)
           op.set("trunc", static_cast<long>(rng.below(160)));
         else if (f == 2)
           op.sets("fault", "underflow:" + std::to_string(rng.range(1, 12)));
+        else
+          op.sets("fault", "alloc:" + std::to_string(rng.range(1, 6)));
       }
     }
     else if (kind < 9)
